@@ -642,6 +642,16 @@ def run(repo, run, tier):
                         bad += whole_text_appends(callee, lambda x, pname=pname: isinstance(x, ast.Name) and x.id == pname
                                                   and isinstance(x.ctx, ast.Load), depth + 1)
         return bad
+    # documentation lines carry no break hint: write_continue continues a line at a \t with the continuation of
+    # *code* (`&` in Fortran), the rest of the sentence would follow without the comment leader
+    for q, fn in sorted(um.functions().items()):
+        if "doxygen" not in q:
+            continue
+        hints = [c for c in ast.walk(fn) if isinstance(c, ast.Constant) and isinstance(c.value, str) and "\t" in c.value]
+        run.check(R1, "util.%s:no-break-hints" % q, not hints,
+                  "%s puts a \\t break hint into a documentation line (%s): a line longer than the line length is continued "
+                  "as code and the remainder of the text becomes a statement of the generated file"
+                  % (q, ast.unparse(hints[0]._parent)[:60] if hints else ""), um.loc(hints[0]) if hints else um.loc(fn))
     for k in keys:
         def is_doc(x, k=k):
             return isinstance(x, ast.Subscript) and pyflow.is_name(x.value, "docs") and pyflow.const_str(x.slice) == k \
@@ -650,6 +660,43 @@ def run(repo, run, tier):
         run.check(R1, "util.WrapperMixin.write_doxygen:%s-lines" % k, not bad,
                   "the %s text (a YAML block scalar can hold several lines) is emitted as one string (%s): only its first line "
                   "gets the comment leader, the following lines become statements of the generated file" % (k, bad[:1]), um.loc(wd))
+    # a list that receives lines under a documentation option is not edited by position afterwards: `out[-1] = out[-1][:-1]`
+    # (drop the comma of the last enumerator) edits the comment instead when the option is on
+    npos = 0
+    for modname in MODULES:
+        mod = repo.module(modname)
+        for q, func in mod.functions().items():
+            tainted = _tainted_locals(func)
+            guarded = {}
+            for c in ast.walk(func):
+                if not isinstance(c, ast.Call):
+                    continue
+                last = (pyflow.call_name(c) or "").split(".")[-1]
+                tgt = None
+                if isinstance(c.func, ast.Attribute) and isinstance(c.func.value, ast.Name) and last in ("append", "extend", "insert"):
+                    tgt = c.func.value.id
+                elif last == "append_format" and c.args and isinstance(c.args[0], ast.Name):
+                    tgt = c.args[0].id
+                if tgt and any(_reads_opt(t, tainted) for t, pol in pyflow.dominating_tests(c, stop=func)):
+                    guarded.setdefault(tgt, []).append(c)
+            for name, adds in sorted(guarded.items()):
+                for e in ast.walk(func):
+                    pos = None
+                    if isinstance(e, ast.Assign) and isinstance(e.targets[0], ast.Subscript) and pyflow.is_name(e.targets[0].value, name) \
+                            and isinstance(e.targets[0].slice, (ast.UnaryOp, ast.Constant)):
+                        pos = e
+                    elif isinstance(e, ast.Call) and isinstance(e.func, ast.Attribute) and e.func.attr == "pop" and pyflow.is_name(e.func.value, name):
+                        pos = e
+                    if pos is None or any(_reads_opt(t, tainted) for t, pol in pyflow.dominating_tests(pos, stop=func)):
+                        continue
+                    npos += 1
+                    earlier = [c for c in adds if c.lineno < pos.lineno]
+                    run.check(R1, "%s.%s:%s:positional-edit" % (modname, q, name), not earlier,
+                              "`%s` edits the last element of `%s`, and `%s` adds a line to that list only when a documentation / debug "
+                              "option is on: with the option the edit hits the comment (the last enumerator keeps its comma, "
+                              "the comment loses a character)" % (re.sub(r"\s+", " ", ast.unparse(pos))[:50], name,
+                                                                  re.sub(r"\s+", " ", ast.unparse(earlier[0]))[:50] if earlier else ""),
+                              mod.loc(pos))
     # an output list that so far holds only documentation: its length / emptiness is an option read in disguise
     nl = 0
     for modname in MODULES:
